@@ -4,6 +4,7 @@ import EaselModel.Sqio.AfetchMain
 import EaselModel.Sqio.EchoSpec
 import EaselModel.Sqio.FetchSpec
 import EaselModel.Sqio.FetchWhole
+import EaselModel.Sqio.FetchMore
 /-! # C07 — fetching by key, number or coordinates returns what a sequential scan returns
 
 Property theorems only (proofs are glue on `Sqio/Geometry.lean`, `Sqio/Tracker.lean`).
@@ -95,6 +96,39 @@ theorem lands_on_start_residue {α : Type} (p : α → Bool) (b r start : Nat) (
 /-- (2, no addressing) `actual_start = 1`, offset `doff`: skipping `start − 1` residues from the start of the data -/
 theorem lands_on_start_none {α : Type} (p : α → Bool) (start : Nat) (data : List α) :
     (dropRes p (start - 1) data).filter p = (data.filter p).drop (start - 1) := filter_dropRes p _ _
+
+/-- **(1) Soundness of the line-geometry tracker, FULL (since the repair 283ccd7).** `recs`: any file as the scan sees it — per
+    record its terminated data lines (bytes incl. the newline, residues) and possibly an unterminated last stretch (record ending at
+    EOF or at the EOD character). If the scan ends with `rpl = p > 0` and `bpl = q > 0` (what `esl-sfetch --index` / `easel index`
+    test before setting `eslSSI_FASTSUBSEQ`), then EVERY record has the geometry `(q, p)`: every line that is followed by another
+    line of its record has exactly `q` bytes and `p` residues, and no line at all — last, only, unterminated — has more than `p`
+    residues or more ignored bytes than a full line (`q − p − 1`; so with `q = p + 1` residue `i` of a line is its byte `i`). -/
+theorem bplrpl_sound (recs : List Rec) (hw : ∀ rc ∈ recs, rc.WF) (p q : Int) (hp : 0 < p) (hq : 0 < q)
+    (hr : (scanFile recs).rpl = p) (hb : (scanFile recs).bpl = q) : ∀ rc ∈ recs, Geom q p rc :=
+  tracker_sound recs hw p q hp hq hr hb
+
+/-- `scanFile` is the event-by-event run of the tracker model (`Track.onEol` / `Track.onStop` of `Sqio/Model.lean`, the functions the
+    executable model of `seebuf` calls) -/
+theorem scanFile_is_run (recs : List Rec) : scanFile recs = run {} (recs.flatMap Rec.events) := scanFile_eq_run recs
+
+/-- non-vacuity: `>A\nACGT\nACGT\nAC\n>B\nACG` (last line unterminated) ends with rpl = 4, bpl = 5 and both records are well-formed -/
+example : (scanFile [⟨[(5, 4), (5, 4), (3, 2)], none⟩, ⟨[], some (3, 3)⟩]).rpl = 4 ∧
+          (scanFile [⟨[(5, 4), (5, 4), (3, 2)], none⟩, ⟨[], some (3, 3)⟩]).bpl = 5 ∧
+          (∀ rc ∈ [(⟨[(5, 4), (5, 4), (3, 2)], none⟩ : Rec), ⟨[], some (3, 3)⟩], rc.WF) := by
+  refine ⟨by decide, by decide, ?_⟩
+  intro rc h
+  simp only [List.mem_cons, List.not_mem_nil, or_false] at h
+  rcases h with rfl | rfl <;> (constructor <;> simp <;> omega)
+
+/-- the six shapes of the retired known finding, as files: each ends with rpl = bpl = 0 (fast subsequence addressing off) -/
+theorem bplrpl_witnesses_invalidate :
+    (scanFile [⟨[(5, 4), (3, 2)], none⟩, ⟨[(7, 6)], none⟩]).rpl = 0 ∧          -- >A ACGT/AC  >B ACGTAC : single line longer than rpl
+    (scanFile [⟨[(3, 2), (5, 4)], none⟩]).rpl = 0 ∧                           -- >A AC/ACGT : longer line where rpl is initialised
+    (scanFile [⟨[(5, 4), (5, 4)], some (6, 6)⟩]).rpl = 0 ∧                    -- unterminated longer last line
+    (scanFile [⟨[(5, 4), (5, 3)], none⟩]).rpl = 0 ∧                           -- >A ACGT/"A CG" : blank in the last line, bpl = rpl + 1
+    (scanFile [⟨[(5, 4), (3, 2)], some (4, 4)⟩]).rpl = 0 ∧                    -- unterminated line after a short line
+    (scanFile [⟨[(7, 6)], none⟩, ⟨[(5, 4), (3, 2)], none⟩]).rpl = 0 := by     -- longer single line BEFORE rpl is set
+  decide
 
 /-- regression (known finding retired by 283ccd7; witness `>A\nACGT\nAC\n>B\nACGTAC\n`): the single line of record B has 6 residues; the tracker
     used to end with rpl = 4, bpl = 5, it now invalidates both -/
@@ -257,6 +291,87 @@ theorem scanned_record_shape (bytes : Bytes) (abc : Nat) (s : Sq) (hs : s ∈ (p
     0 ≤ s.roff ∧ s.roff < (bytes.size : Int) ∧ 0 < s.doff ∧ s.doff ≤ (bytes.size : Int) ∧ s.L = (s.seq.size : Int) :=
   let h := FetchSpec.record_shape bytes abc s hs
   ⟨h.1, h.2.1, h.2.2.1, h.2.2.2.1, h.2.2.2.2.2.2.1⟩
+
+/-- **(3, fetch to the end) `end = 0`** is `end = L`: `sqascii_FetchSubseq(key, start, 0)` is literally the call with `end = L`, the
+    length the index stored — same handle, same `ESL_SQ`, same status, name `key/start-L` — for every file, index, key and start -/
+theorem fetchSubseq_end_zero (a : Ascii) (ssi : Ssi) (sq : Sq) (key : Bytes) (start roff doff len actualStart : Int)
+    (hfs : findSubseq ssi key start = .ok (roff, doff, len, actualStart)) :
+    fetchSubseq a ssi sq key start 0 = fetchSubseq a ssi sq key start len :=
+  FetchMore.fetchSubseq_end_zero a ssi sq key start roff doff len actualStart hfs
+
+/-- … so FETCH `start..0` = residues `start..L` of the SCAN (stated for the brute-force index; the line / residue cases compose the same
+    way with `fetchSubseq_eq_scan_slice_line` / `_residue`) -/
+theorem fetchSubseq_to_end_eq_scan_suffix (bytes : Bytes) (abc : Nat) (habc : abc ∈ [0, 1, 2, 3]) (s : Sq) (hs : s ∈ (parseFasta abc bytes).1)
+    (ssi : Ssi) (key : Bytes) (e : SsiEntry) (he : ssi.findName key = some e) (her : e.roff = s.roff) (hed : e.doff = s.doff)
+    (hel : e.len = s.L) (hfast : ssi.fast = false) (start : Int)
+    (a : Ascii) (hf : a.file = bytes) (hb : a.linebased = false) (hr : a.recording ≠ 1) (hB : 1 ≤ a.B)
+    (hi : a.inmap = inmapFasta abc) (hfmt : a.fmt = 1) (heof : a.eofIsOk = true)
+    (sq : Sq) (hdig : sq.digital = (abc != 0)) (hsabc : sq.abc = abc) (hseq : sq.seq = #[]) (hna : 2 ≤ sq.nalloc) (hda : 2 ≤ sq.dalloc)
+    (h1 : 1 ≤ start) (h2 : start ≤ s.L) :
+    (fetchSubseq a ssi sq key start 0).2.2 = .ok ∧
+    (fetchSubseq a ssi sq key start 0).2.1.seq = s.seq.extract (start - 1).toNat s.L.toNat ∧
+    (fetchSubseq a ssi sq key start 0).2.1.start = start ∧ (fetchSubseq a ssi sq key start 0).2.1.end_ = s.L ∧
+    (fetchSubseq a ssi sq key start 0).2.1.name = key ++ #[47] ++ decBytes start ++ #[45] ++ decBytes s.L := by
+  have hfs := FetchSpec.findSubseq_brute ssi key start e he hfast h1 (by omega)
+  rw [FetchMore.fetchSubseq_end_zero a ssi sq key start _ _ _ _ hfs, hel]
+  obtain ⟨r1, r2, r3, r4, _, _, _, r8⟩ :=
+    FetchSpec.fetchSubseq_eq_slice_brute bytes abc habc s hs ssi key e he her hed hel hfast start s.L a hf hb hr hB hi hfmt heof sq hdig hsabc
+      hseq hna hda h1 h2 (Int.le_refl _)
+  exact ⟨r1, r2, r3, r4, r8⟩
+
+/-- **(3, FetchInfo) FETCHINFO = the info of the scanned record, for every block size**: `sqascii_Position(roff)` + `sqascii_ReadInfo`
+    (what `esl_sqio_FetchInfo` does) succeeds and returns the name, description, the four offsets and the length `L` of the record the
+    sequential scan yields — `L` being the number of residues `Read` delivers -/
+theorem fetchInfo_eq_scan (bytes : Bytes) (abc : Nat) (habc : abc ∈ [0, 1, 2, 3]) (s : Sq) (hs : s ∈ (parseFasta abc bytes).1)
+    (a : Ascii) (hf : a.file = bytes) (hb : a.linebased = false) (hr : a.recording ≠ 1) (hB : 1 ≤ a.B)
+    (hi : a.inmap = inmapFasta abc) (hfmt : a.fmt = 1) (heof : a.eofIsOk = true)
+    (sq : Sq) (hdig : sq.digital = (abc != 0)) (hsabc : sq.abc = abc) (hseq : sq.seq = #[]) (hna : 2 ≤ sq.nalloc) (hda : 2 ≤ sq.dalloc)
+    (hsa : 2 ≤ sq.salloc) :
+    (position a s.roff.toNat).2 = .ok ∧
+    (readInfo (position a s.roff.toNat).1 sq).2.2 = .ok ∧
+    (readInfo (position a s.roff.toNat).1 sq).2.1.name.toList = s.name.toList ∧
+    (readInfo (position a s.roff.toNat).1 sq).2.1.desc.toList = s.desc.toList ∧
+    (readInfo (position a s.roff.toNat).1 sq).2.1.roff = s.roff ∧ (readInfo (position a s.roff.toNat).1 sq).2.1.hoff = s.hoff ∧
+    (readInfo (position a s.roff.toNat).1 sq).2.1.doff = s.doff ∧ (readInfo (position a s.roff.toNat).1 sq).2.1.eoff = s.eoff ∧
+    (readInfo (position a s.roff.toNat).1 sq).2.1.L = s.L ∧ s.L = (s.seq.size : Int) :=
+  FetchWhole.fetchInfo_eq_scan bytes abc habc s hs a hf hb hr hB hi hfmt heof sq hdig hsabc hseq hna hda hsa
+
+open EaselModel.Sqio.SpecFasta in
+/-- **(3, by number) FETCH BY NUMBER = SCAN**: `esl_ssi_FindNumber(n)` is the `n`-th primary key in index order
+    (`findNumber_index_order`); when that entry carries the record offset of the scanned record `s`, `sqascii_PositionByNumber(n)` +
+    `sqascii_Read` returns `s`, for every block size -/
+theorem fetch_by_number_eq_scan (bytes : Bytes) (abc : Nat) (habc : abc ∈ [0, 1, 2, 3]) (s : Sq) (hs : s ∈ (parseFasta abc bytes).1)
+    (ssi : Ssi) (n : Nat) (e : SsiEntry) (hn : findNumber ssi n = some e) (her : e.roff = s.roff)
+    (a : Ascii) (hf : a.file = bytes) (hb : a.linebased = false) (hr : a.recording ≠ 1) (hB : 1 ≤ a.B)
+    (hi : a.inmap = inmapFasta abc) (hfmt : a.fmt = 1) (heof : a.eofIsOk = true)
+    (sq : Sq) (hdig : sq.digital = (abc != 0)) (hsabc : sq.abc = abc) (hseq : sq.seq = #[]) (hna : 2 ≤ sq.nalloc) (hda : 2 ≤ sq.dalloc) :
+    e ∈ ssi.prim.toList ∧ (positionByNumber a ssi n).2 = .ok ∧
+    (read (positionByNumber a ssi n).1 sq).2.2 = .ok ∧
+    toRecord (read (positionByNumber a ssi n).1 sq).2.1 = toRecord s :=
+  FetchMore.fetch_by_number_eq_scan bytes abc habc s hs ssi n e hn her a hf hb hr hB hi hfmt heof sq hdig hsabc hseq hna hda
+
+/-- index order: the entries `FindNumber` enumerates are exactly the primary keys (a permutation), in non-decreasing byte-wise key
+    order; a number `≥ nprimary` is `eslENOTFOUND` and leaves the handle untouched -/
+theorem findNumber_index_order (ssi : Ssi) :
+    (sortedPrim ssi).Perm ssi.prim.toList ∧ (sortedPrim ssi).Pairwise (fun x y => x.key.toList ≤ y.key.toList) ∧
+    (∀ n, findNumber ssi n = (sortedPrim ssi)[n]?) ∧
+    (∀ (a : Ascii) (n : Nat), ssi.prim.size ≤ n → positionByNumber a ssi n = (a, .enotfound)) :=
+  ⟨FetchMore.sortedPrim_perm ssi, FetchMore.sortedPrim_sorted ssi, fun _ => rfl,
+   fun a n h => FetchMore.positionByNumber_out_of_range a ssi n h⟩
+
+/-- non-vacuity: the keys `b`, `a` (in file order) are enumerated as `a`, `b`; number 2 is absent -/
+example : ((List.range 3).map fun n => (findNumber { prim := #[⟨#[98], 10, 13, 4⟩, ⟨#[97], 0, 3, 4⟩] } n).map (·.roff))
+    = [some 0, some 10, none] := by
+  have h : ¬ (([98] : List UInt8) ≤ [97]) := by decide
+  simp [findNumber, sortedPrim, List.mergeSort, keyLe, List.range, List.range.loop, h]
+
+/-- **(3, whole record, every size)** the size of what `Echo` writes is `eoff − roff + 1`, for every record size and every block
+    size (in particular records of `k·4096 − 1`, `k·4096`, `k·4096 + 1` bytes read with `B = 4096`) -/
+theorem echo_size (a : Ascii) (sq : Sq) (hb : a.linebased = false) (hr : a.recording ≠ 1) (hB : 1 ≤ a.B)
+    (h0 : 0 ≤ sq.roff) (h1 : sq.roff ≤ sq.eoff) (h2 : sq.eoff < (a.file.size : Int)) :
+    ((echo a sq).2.2.size : Int) = sq.eoff - sq.roff + 1 := by
+  rw [(EchoSpec.echo_eq_scan_bytes a sq hb hr hB h0 h1 h2).2.1, Array.size_extract]
+  omega
 
 end fetchsub
 
